@@ -62,8 +62,19 @@ fn obs_parse(key: &[u8], out: &mut Vec<String>) {
         out.push(format!("ext.from_str {} => {:?}", k, s.parse::<ExtensionsMap>().map(|l| l.to_string()).map_err(|e| format!("{:?}", e))));
     }
 }
+/// full product of a few values per field (every combination of present / absent script, region and variants occurs on both sides)
+fn ids_product() -> Vec<String> {
+    let mut out = vec![];
+    for l in ["en", "und", "sr", "he"] { for s in ["", "Latn", "Cyrl"] { for r in ["", "US", "RS"] { for v in VARIANTS {
+        let mut t = l.to_string();
+        for p in [s, r, v] { if !p.is_empty() { t.push('-'); t.push_str(p); } }
+        out.push(t);
+    }}}}
+    out
+}
 fn obs_pairs(out: &mut Vec<String>) {
-    let pool: Vec<(String, LanguageIdentifier)> = ids().into_iter().step_by(5).filter_map(|s| s.parse().ok().map(|l| (s, l))).collect();
+    let mut pool: Vec<(String, LanguageIdentifier)> = ids().into_iter().step_by(5).filter_map(|s| s.parse().ok().map(|l| (s, l))).collect();
+    pool.extend(ids_product().into_iter().filter_map(|s| s.parse().ok().map(|l| (format!("{} (product pool)", s), l))));
     for (sa, a) in &pool {
         let mut m = String::new(); let mut c = String::new();
         for (_, b) in &pool {
@@ -76,7 +87,10 @@ fn obs_pairs(out: &mut Vec<String>) {
         out.push(format!("lid.cmp-eq-hash-row {} => {}", sa, c));
         out.push(format!("lid.eq-str {} => {}{}", sa, a == &sa.as_str(), a == &"en-US"));
     }
-    let lpool: Vec<(String, Locale)> = ids().into_iter().step_by(11).flat_map(|s| EXTS.iter().map(move |e| format!("{}{}", s, e))).filter_map(|s| s.parse().ok().map(|l| (s, l))).collect();
+    let mut lpool: Vec<(String, Locale)> = ids().into_iter().step_by(11).flat_map(|s| EXTS.iter().map(move |e| format!("{}{}", s, e))).filter_map(|s| s.parse().ok().map(|l| (s, l))).collect();
+    for i in ["en", "en-Latn-US", "en-Latn-US-macos", "en-US-macos", "sr-Cyrl-RS", "sr-RS", "und-Latn-US", "und"] { for e in EXTS {
+        if let Ok(l) = format!("{}{}", i, e).parse::<Locale>() { lpool.push((format!("{}{} (product pool)", i, e), l)); }
+    } }
     for (sa, a) in &lpool {
         let mut m = String::new(); let mut c = String::new();
         for (_, b) in &lpool {
